@@ -2,11 +2,13 @@
 // Generates expressions over constants of every type with every unary / binary / n-ary /
 // ternary / in operator, and for each one compiles and RUNS (real compiler, real
 // interpreter) several forms of the same operations:
-//   lit   all operands are literals                 function () { return 1 + "a" }   (folded at compile time)
-//   par   all operands are parameters               function (a, b) { return a + b } (evaluated at run time)
-//   mix   some operands literals, some parameters   (partial folding)
-//   prop  operands are single-assignment locals     a = 1; b = "a"; return a + b     (PropFold)
-//   nf    operands are locals assigned twice        (not final: evaluated at run time)
+//
+//	lit   all operands are literals                 function () { return 1 + "a" }   (folded at compile time)
+//	par   all operands are parameters               function (a, b) { return a + b } (evaluated at run time)
+//	mix   some operands literals, some parameters   (partial folding)
+//	prop  operands are single-assignment locals     a = 1; b = "a"; return a + b     (PropFold)
+//	nf    operands are locals assigned twice        (not final: evaluated at run time)
+//
 // and records the results (value, run-time exception class, or compile-time error class).
 // spec/trace/TraceFold.tla requires all forms to equal Values.tla Eval (value or exception
 // class); outside the domain Eval covers the forms must still agree with each other.
@@ -314,7 +316,7 @@ func (t *test) emit(tr *vh.Trace, stats map[string]int) {
 		masks = append(masks, m)
 	}
 	if len(masks) > 6 {
-		rand.New(rand.NewSource(int64(n)*7919 + vh.Seed())).Shuffle(len(masks), func(i, j int) { masks[i], masks[j] = masks[j], masks[i] })
+		rand.New(rand.NewSource(int64(n)*7919+vh.Seed())).Shuffle(len(masks), func(i, j int) { masks[i], masks[j] = masks[j], masks[i] })
 		masks = masks[:6]
 	}
 	for _, m := range masks {
@@ -390,30 +392,90 @@ func (t *test) emit(tr *vh.Trace, stats map[string]int) {
 		addExtra("ifassign", litMask(true), run("function () {\n"+pre.String()+body+"}", nil))
 		addExtra("ifassign-par", litMask(false), run("function ("+allParams+") {\n"+body+"}", vals))
 	}
-	if ntests%2 == 0 {
-		// mod: the first operand is a local that is assigned a different constant first and
-		// then modified inside a block / branch / try / loop, so it must NOT be propagated;
-		// the other operands are single-assignment locals
+	{
+		// mod / in: the first operand is a local that is assigned a different constant first
+		// and then gets its value from a construct that must disqualify it from being
+		// "final" (single-assignment): assignment inside a block / branch / try / loop /
+		// switch / nested expression, ++ / += / $= in a loop or block, first and second
+		// variable of for-in loops, catch variable, block parameter.  It must NOT be
+		// propagated; the other operands are single-assignment locals (propagated).
+		//   mod-*: the construct runs, then the expression is evaluated after it
+		//   in-*:  the expression is evaluated inside the construct (loop body, catch
+		//          block, block with parameter) where the local has its new value
 		k0 := "123456"
 		if t.args[0].lit == k0 {
 			k0 = "\"q\""
 		}
-		a, k := varNames[0], t.args[0].lit
-		mods := []struct{ name, code string }{
-			{"mod-block", a + " = " + k0 + "\nblk = { " + a + " = " + k + " }\nblk()\n"},
-			{"mod-if", a + " = " + k0 + "\nif (" + a + " is " + a + ")\n{ " + a + " = " + k + " }\n"},
-			{"mod-try", a + " = " + k0 + "\ntry { " + a + " = " + k + "\nthrow \"x\" } catch { }\n"},
-			{"mod-for", a + " = " + k0 + "\nfor (i = 0; i < 2; i++)\n{ " + a + " = " + k + " }\n"},
-			{"mod-param-block", "blk = {|x| " + a + " = x }\n" + a + " = " + k0 + "\nblk(" + k + ")\n"},
+		a, k, kav := varNames[0], t.args[0].lit, t.args[0].av
+		init := a + " = " + k0 + "\n"
+		type mod struct{ name, before, inside string } // inside: "%s" is replaced by the expression
+		mods := []mod{
+			{"mod-block", init + "blk = { " + a + " = " + k + " }\nblk()\n", ""},
+			{"mod-if", init + "if (" + a + " is " + a + ")\n{ " + a + " = " + k + " }\n", ""},
+			{"mod-try", init + "try { " + a + " = " + k + "\nthrow \"x\" } catch { }\n", ""},
+			{"mod-for", init + "for (i = 0; i < 2; i++)\n{ " + a + " = " + k + " }\n", ""},
+			{"mod-param-block", "blk = {|x| " + a + " = x }\n" + init + "blk(" + k + ")\n", ""},
+			{"mod-forinit", init + "for (" + a + " = " + k + "; false; )\n{ }\n", ""},
+			{"mod-while", init + "cnt = 0\nwhile (cnt++ < 1)\n{ " + a + " = " + k + " }\n", ""},
+			{"mod-dowhile", init + "do { " + a + " = " + k + " } while (false)\n", ""},
+			{"mod-forever", init + "forever { " + a + " = " + k + "\nbreak }\n", ""},
+			{"mod-switch", init + "switch (1) { case 1: " + a + " = " + k + " }\n", ""},
+			{"mod-chain", init + "zz = " + a + " = " + k + "\n", ""},
+			{"mod-nested", init + "zz = Object(" + a + " = " + k + ")\n", ""},
+			{"mod-forin1", init + "for " + a + " in #(" + k + ")\n{ }\n", ""},
+			{"mod-forin2-second", init + "for km, " + a + " in #(kk: " + k + ")\n{ }\n", ""},
+			{"in-forin1", init, "for " + a + " in #(" + k + ")\n{ return %s }\nreturn \"loop body not reached\"\n"},
+			{"in-forin2-second", init, "for km, " + a + " in #(kk: " + k + ")\n{ return %s }\nreturn \"loop body not reached\"\n"},
+			{"in-blockparam", init, "blk = {|" + a + "| %s }\nreturn blk(" + k + ")\n"},
+			{"mod-multiassign", init + "fn2 = function () { return " + k + ", 1 }\n" + a + ", zz = fn2()\n", ""},
+			// implicit block parameter "it": the first operand is renamed to it
+			{"in-itparam", "it = " + k0 + "\n", "blk = { %s }\nreturn blk(" + k + ")\n"},
 		}
-		m := mods[(ntests/2)%len(mods)]
+		if n, ok := kav.IsInt(); ok && kav.T == "num" && -1000000 < n && n < 1000000 {
+			if n == 0 || n == 1 { // the first variable of a two-variable for-in is the member (index)
+				ob := []string{"#(9)", "#(9, 9)"}[n]
+				mods = append(mods,
+					mod{"mod-forin2-first", init + "for " + a + ", vv in " + ob + "\n{ }\n", ""},
+					mod{"in-forin2-first", init, "for " + a + ", vv in " + ob + "\n{ if " + a + " is " + k + "\n{ return %s } }\nreturn \"loop body not reached\"\n"})
+			}
+			less, more := fmt.Sprint(n-1), fmt.Sprint(n+1)
+			init1 := a + " = " + less + "\n"
+			mods = append(mods,
+				mod{"mod-postinc-loop", init1 + "for (i = 0; i < 1; i++)\n{ " + a + "++ }\n", ""},
+				mod{"mod-preinc-block", init1 + "blk = { ++" + a + " }\nblk()\n", ""},
+				mod{"mod-addeq-block", init1 + "blk = { " + a + " += 1 }\nblk()\n", ""},
+				mod{"mod-subeq-forin", a + " = " + more + "\nfor i in #(1)\n{ " + a + " -= 1 }\n", ""},
+				mod{"mod-dec-while", a + " = " + more + "\ncnt = 0\nwhile (cnt++ < 1)\n{ " + a + "-- }\n", ""})
+		}
+		if kav.T == "str" {
+			mods = append(mods, mod{"mod-cateq-loop", a + " = \"\"\nfor i in #(1)\n{ " + a + " $= " + k + " }\n", ""})
+			if len(kav.C) > 0 {
+				mods = append(mods,
+					mod{"mod-catch", init + "try throw " + k + " catch (" + a + ") { }\n", ""},
+					mod{"in-catch", init, "try throw " + k + " catch (" + a + ")\n{ return %s }\nreturn \"catch not reached\"\n"})
+			}
+		}
+		m := mods[ntests%len(mods)]
 		var rest strings.Builder
 		for i := 1; i < n; i++ {
 			fmt.Fprintf(&rest, "%s = %s\n", varNames[i], t.args[i].lit)
 		}
 		lm := litMask(true)
 		lm[0] = false
-		addExtra(m.name, lm, run(src("", m.code+rest.String(), parText), nil))
+		body, _ := t.e.render(parText)
+		if m.name == "in-itparam" {
+			body, _ = t.e.render(func(i int) string {
+				if i == 0 {
+					return "it"
+				}
+				return varNames[i]
+			})
+		}
+		tail := "return " + body + "\n"
+		if m.inside != "" {
+			tail = strings.Replace(m.inside, "%s", body, 1)
+		}
+		addExtra(m.name, lm, run("function () {\n"+rest.String()+m.before+tail+"}", nil))
 	}
 	// se: parameters are read through a block that logs the read, literals stay literals:
 	// folding must not change which operands are evaluated (side effects)
